@@ -187,6 +187,7 @@ def _xi_is_fn(me, c, **pre):
 
 class _SSI_mpe(_Mpe):
     qualname = "pyoma2.functions.ssi.SSI_mpe"
+    props = ("C11", "C01")      # C01's last step ("mpe at order 2m returns f_k, xi_k, shapes") is this extraction
     canaries = {"damping taken from the frequency table": spec_canary(_xi_is_fn)}
 
     def setup(self, c):
